@@ -88,6 +88,7 @@ type bvSite struct {
 	Text string
 	A, B *Term // obligation A <= B
 	OK   bool
+	Seq  int // value of the path's access counter at this access
 }
 
 type bvPath struct {
@@ -693,7 +694,7 @@ func (bi *bvInterp) access(p *bvPath, v *bvView, idx, n *Term, pos token.Pos, te
 		return
 	}
 	a := idx.Add(n)
-	s := &bvSite{Pos: pos, Text: text, A: a, B: l}
+	s := &bvSite{Pos: pos, Text: text, A: a, B: l, Seq: p.Reads}
 	s.OK = p.Ctx.prove(a, l) && p.Ctx.prove(Const(0), idx)
 	p.Sites = append(p.Sites, s)
 }
@@ -886,13 +887,13 @@ func (bi *bvInterp) expr(p *bvPath, e ast.Expr) *bvVal {
 			hi := p.Ctx.linOf(hv.BV)
 			nv.Len = hi.Sub(lo)
 			if vl != nil {
-				s := &bvSite{Pos: x.Pos(), Text: types.ExprString(x), A: hi, B: vl}
+				s := &bvSite{Pos: x.Pos(), Text: types.ExprString(x), A: hi, B: vl, Seq: p.Reads + 1}
 				s.OK = p.Ctx.prove(hi, vl) && p.Ctx.prove(lo, hi) && p.Ctx.prove(Const(0), lo)
 				p.Sites = append(p.Sites, s)
 			}
 		} else if vl != nil {
 			nv.Len = vl.Sub(lo)
-			s := &bvSite{Pos: x.Pos(), Text: types.ExprString(x), A: lo, B: vl}
+			s := &bvSite{Pos: x.Pos(), Text: types.ExprString(x), A: lo, B: vl, Seq: p.Reads + 1}
 			s.OK = p.Ctx.prove(lo, vl) && p.Ctx.prove(Const(0), lo)
 			p.Sites = append(p.Sites, s)
 		}
